@@ -372,6 +372,21 @@ def gen_heter_script(rng, name, max_ops=35, ncb=5, lvalue_enqueue=False, inc=Fal
     for _ in range(rng.randint(6, max_ops)):
         r = rng.random()
         k = rng.randrange(nk)
+        if rng.random() < 0.14:
+            # the stand-alone HeterCallbackList (event key 7 of the model); a callback whose id ends in 8 assigns an
+            # empty list to it while it runs
+            r2 = rng.random()
+            if r2 < 0.5:
+                kind = rng.randrange(ncb)
+                lines.append("do hlappend %d %d" % (kind, kind * 100 + rng.choice([1, 2, 3, 8, 8])))
+                owner[issued] = 7
+                issued += 1
+            elif r2 < 0.9:
+                lines.append("do hlinvoke %d %d" % (rng.randrange(7), rng.randint(0, 20)))
+            else:
+                mine = [h for h, o in owner.items() if o == 7]
+                lines.append("do hremove 7 %d" % (rng.choice(mine) if mine and rng.random() < 0.85 else issued + rng.randint(0, 2)))
+            continue
         if r < 0.22:
             kind = rng.randrange(ncb)
             lines.append("do hlisten %d %d %d" % (k, kind, kind * 100 + rng.randint(1, 9)))
